@@ -3,7 +3,7 @@
    [wctr V_code] etc. are the faithful models of the current code tied to the code by the history
    correspondence of vlib/parts/C13_window.py. *)
 From Coq Require Import ZArith List Bool QArith Qcanon Permutation.
-From TE Require Import Base.Val Base.Xq Algebra.Metric Algebra.Pool Models.Window Models.WindowAUROC Proofs.WindowP.
+From TE Require Import Base.Val Base.Xq Algebra.Metric Algebra.Pool Models.Curves Models.Window Models.WindowAUROC Proofs.WindowP.
 Import ListNotations.
 Open Scope list_scope.
 
@@ -67,14 +67,23 @@ Theorem window_auroc_refines_lastN :
     acontents (after_updates (wauroc V_code) c bs) = lastn (aN c) (List.concat bs).
 Proof. exact auroc_window_holds_lastN. Qed.
 
-(* compute() level, PARTIAL: if no sample has the score 0 (for all tasks at once), compute()
-   reads a permutation of the last N samples.  Missing: invariance of the AUROC kernel under
-   permutations (C05), and windows of one sample (see the refutations below). *)
-Theorem window_auroc_reads_lastN_partial :
+(* compute() level: if no sample has the score 0 (for all tasks at once), compute() reads a
+   permutation of the last N samples ... *)
+Theorem window_auroc_reads_lastN :
   forall (c : acfg) (bs : list (list col)), (0 < aN c)%nat ->
     Forall (fun cl => nonzero_col cl = true) (List.concat bs) ->
     Permutation (aread (after_updates (wauroc V_code) c bs)) (lastn (aN c) (List.concat bs)).
 Proof. exact auroc_reads_lastN_partial. Qed.
+(* ... and, with the C05 theorems (the AUROC kernel equals the pairwise definition auroc_spec, which
+   depends only on the multiset of samples): when no retained sample has score 0 and the window
+   holds at least two samples, compute() IS the AUROC definition of the last N samples, per task
+   (a scalar for num_tasks = 1).  The two excluded situations are exactly the D6 refutations below. *)
+Theorem window_auroc_compute_is_spec :
+  forall (c : acfg) (bs : list (list col)), (0 < aN c)%nat ->
+    Forall (fun cl => nonzero_col cl = true) (List.concat bs) ->
+    (2 <= List.length (lastn (aN c) (List.concat bs)))%nat ->
+    cmp (wauroc V_code) c (after_updates (wauroc V_code) c bs) = auroc_ref c (lastn (aN c) (List.concat bs)).
+Proof. exact auroc_compute_is_spec. Qed.
 
 (* The faithful model falsifies the full statement for WindowedBinaryAUROC (D6). *)
 Definition auroc_window_correct : Prop :=
@@ -130,7 +139,8 @@ Print Assumptions window_refines_queue_mse.
 Print Assumptions window_refines_queue_ne.
 Print Assumptions ne_equiv_same_value.
 Print Assumptions window_auroc_refines_lastN.
-Print Assumptions window_auroc_reads_lastN_partial.
+Print Assumptions window_auroc_reads_lastN.
+Print Assumptions window_auroc_compute_is_spec.
 Print Assumptions window_auroc_zero_score_refuted.
 Print Assumptions window_auroc_zero_score_witness.
 Print Assumptions window_auroc_single_sample_refuted.
